@@ -1,6 +1,7 @@
 """Python end of the interpreter model (lean/Glom/Model/Interp.lean):
 spec JSON -> real glom spec objects, the catalogue of instrumented callables,
 value codec, and one logged run of the real glom."""
+import types
 from collections import OrderedDict
 
 LOG = []
@@ -70,6 +71,8 @@ def enc(v):
         return {'ty': v.__name__}
     if isinstance(v, ScopeVars):
         return {'vars': 0}
+    if isinstance(v, (types.GeneratorType, map, filter)):
+        return {'gen': 0}                 # an unconsumed lazy stream: opaque
     raise ValueError('cannot encode %r' % (v,))
 
 
@@ -374,6 +377,10 @@ def build(j, fns):
         return glom.Switch(cases)
     if k == 'probe':
         return Probe(j['id'])
+    if k == 'iter':
+        if j.get('map'):
+            return glom.Iter().map(B(j['s']))
+        return glom.Iter(B(j['s']))
     raise ValueError('unknown spec kind ' + k)
 
 
